@@ -107,6 +107,7 @@ struct CaseCtx {
   std::map<std::string, int> counters;   // free-form numeric coverage counters
   int asan_reports = 0;
   bool crashed = false;   // a fatal signal was caught inside a library call
+  bool slow = false;      // the CPU watchdog stopped a call on a non-tiny input (inconclusive)
 
   void set_op(const char *o);
   // returns true if op must not be executed (known crashing defect)
@@ -134,6 +135,7 @@ void write_file(const std::string &path, const void *d, size_t n);
 // Runs f with fatal signals (SEGV, BUS, FPE, ILL, ABRT) turned into an event of the operation in
 // flight: returns false if f died.  The case is tainted; the owner of the op is told through on_crash.
 bool guarded(const std::function<void()> &f);
+extern int guard_budget_s;   // CPU seconds a guarded call may take before it is reported as a hang
 
 // implemented by each family
 int run_case(const uint8_t *data, size_t n, CaseCtx &c);
